@@ -398,6 +398,17 @@ class PseudoNetCDFFile(PseudoNetCDFSelfReg, object):
             ])
 
         timeunits = self.variables[timekey].units.strip()
+        if ' since ' in timeunits:
+            # read the reference date with the parser getTimes uses, so that
+            # both directions agree (cftime drops e.g. an hour that is
+            # given without minutes)
+            from ..coordutil import _parse_ref_date
+            unit, base = timeunits.split(' since ')
+            try:
+                refdate = _parse_ref_date(base)
+                timeunits = unit + ' since ' + refdate.isoformat(' ')
+            except Exception:
+                pass
         calendar = getattr(self.variables[timekey], 'calendar', 'standard')
         num = date2num(time, timeunits, calendar.strip())
         return num
